@@ -3,6 +3,7 @@
   Property-level statements; helper lemmas belong in Emitter/Lemmas/Mqtt.lean.
 -/
 import Emitter.Lemmas.Mqtt
+import Emitter.Lemmas.MqttSpec
 namespace Emitter.C16
 open Emitter Emitter.Mqtt
 
@@ -73,5 +74,362 @@ example : decode (encodeWire (.pubrel ⟨false, 64, false⟩ 0) ++ [9]) 1 = .ok 
 example : wellFormed (.publish ⟨true, 2, true⟩ [97, 47] 7 [1, 2, 3]) = true := by decide
 example : decode (encodeWire (.publish ⟨true, 2, true⟩ [97, 47] 7 [1, 2, 3]) ++ [9]) 100
     = .ok (.publish ⟨true, 2, true⟩ [97, 47] 7 [1, 2, 3], [9]) := by decide
+
+
+/-! # Conformance to MQTT 3.1.1
+
+`Emitter/Spec/Mqtt.lean` is the wire format written from the OASIS standard, with its own packet type
+(`Spec.Mqtt.ControlPacket`), encoder (`encodePacket`) and strict parser (`decodePacket`).
+`Spec.Mqtt.encode p` is the byte string the standard prescribes for the Go packet value `p`; it is defined
+exactly when `Spec.Mqtt.conforming p` holds (`encode_defined_iff`): `p` denotes a standard packet
+(`ofModel`: no Will QoS / Will Retain without a Will; header bits of PUBREL / SUBSCRIBE / UNSUBSCRIBE are
+0,0,1,0), that packet satisfies the standard's rules (`valid`: QoS ≤ 2 everywhere, strings ≤ 65535 bytes,
+non-zero packet identifier where one is required and none at QoS 0, DUP 0 at QoS 0, at least one topic
+filter, SUBACK codes in {0,1,2,0x80}, CONNACK code ≤ 5, a password only with a user name) and its
+Remaining Length is at most 268 435 455. All statements are for every packet value of all 14 types, with
+no bound on string, payload or list lengths other than the protocol's own. -/
+
+/-- the condition under which the conformance theorems speak, as an explicit decidable predicate -/
+theorem encode_defined_iff (p : Packet) : (Spec.Mqtt.encode p).isSome = Spec.Mqtt.conforming p :=
+  MqttSpec.encode_defined_iff p
+
+/-! ## remaining length (2.2.3) -/
+
+/-- the standard's table (1/2/3/4 bytes up to 127 / 16 383 / 2 097 151 / 268 435 455) and the digit loop of
+`encodeLength` + `writeHeader` produce the same bytes for every length below 2^28 … -/
+theorem remaining_length_conforms (n : Nat) (h : n < 268435456) :
+    Spec.Mqtt.encRemainingLength n = some (encLen n) :=
+  MqttSpec.encRemainingLength_eq n h
+
+/-- … larger lengths have no encoding … -/
+theorem remaining_length_limit (n : Nat) (h : 268435456 ≤ n) : Spec.Mqtt.encRemainingLength n = none :=
+  MqttSpec.encRemainingLength_none n h
+
+/-- … and both the standard's reader (at most four bytes) and the loop of `decodeHeader` read the value back,
+whatever follows -/
+theorem remaining_length_parse (n : Nat) (h : n < 268435456) (rest : Bytes) :
+    Spec.Mqtt.remainingLength 4 (encLen n ++ rest) = some (n, rest) ∧
+    decodeLen (encLen n ++ rest) 1 0 = .ok (UInt32.ofNat n, rest) :=
+  ⟨MqttSpec.remainingLength_enc n _ rest (MqttSpec.encRemainingLength_eq n h), Mqtt.decodeLen_encLen n h rest⟩
+
+/-- on every length field the standard accepts — one to four bytes, minimal or padded — the loop of
+`decodeHeader` reads the same value and stops at the same place as the standard's reader -/
+theorem remaining_length_agree (r r' : Bytes) (n : Nat) (h : Spec.Mqtt.remainingLength 4 r = some (n, r')) :
+    decodeLen r 1 0 = .ok (UInt32.ofNat n, r') := by
+  have := MqttSpec.decodeLen_of_remainingLength 4 r r' n 1 0 h
+  simpa using this
+
+example : Spec.Mqtt.remainingLength 4 [0x80, 0x80, 0x00, 9] = some (0, [9]) ∧
+    decodeLen [0x80, 0x80, 0x00, 9] 1 0 = .ok (0, [9]) := by decide
+
+/-- the boundaries of Table 2.4, as the model encodes them -/
+example : encLen 0 = [0x00] ∧ encLen 127 = [0x7f] ∧ encLen 128 = [0x80, 0x01] ∧ encLen 16383 = [0xff, 0x7f] ∧
+    encLen 16384 = [0x80, 0x80, 0x01] ∧ encLen 2097151 = [0xff, 0xff, 0x7f] ∧
+    encLen 2097152 = [0x80, 0x80, 0x80, 0x01] ∧ encLen 268435455 = [0xff, 0xff, 0xff, 0x7f] := by decide
+example : Spec.Mqtt.encRemainingLength 127 = some [0x7f] ∧ Spec.Mqtt.encRemainingLength 128 = some [0x80, 0x01] ∧
+    Spec.Mqtt.encRemainingLength 16383 = some [0xff, 0x7f] ∧
+    Spec.Mqtt.encRemainingLength 16384 = some [0x80, 0x80, 0x01] ∧
+    Spec.Mqtt.encRemainingLength 2097151 = some [0xff, 0xff, 0x7f] ∧
+    Spec.Mqtt.encRemainingLength 2097152 = some [0x80, 0x80, 0x80, 0x01] ∧
+    Spec.Mqtt.encRemainingLength 268435455 = some [0xff, 0xff, 0xff, 0x7f] ∧
+    Spec.Mqtt.encRemainingLength 268435456 = none := by decide
+
+/-! ## encoding -/
+
+/-- **encode_conforms.** Whenever the standard prescribes a byte string for a packet value — any of the 14
+types — `EncodeTo` lays the packet out as exactly that byte string … -/
+theorem encode_conforms (p : Packet) (bs : Bytes) (h : Spec.Mqtt.encode p = some bs) : encodeWire p = bs :=
+  MqttSpec.encode_conforms p bs h
+
+/-- … and returns it, provided the body fits the pooled buffer (`n` is the Remaining Length) -/
+theorem emit_conforms (p : Packet) (bs : Bytes) (n : Nat) (h : Spec.Mqtt.encode p = some bs)
+    (hn : Spec.Mqtt.remainingLengthOf p = some n) (hfit : n ≤ bodyRoom) : encode p = .ok bs := by
+  rw [MqttSpec.remainingLengthOf_some h] at hn
+  have : (parts p).2.2.length ≤ bodyRoom := by cases hn; exact hfit
+  rw [Mqtt.encode_of_fits p this, MqttSpec.encode_conforms p bs h]
+
+/-! The packets the broker emits (`internal/broker/conn.go`: CONNACK, PUBLISH at QoS 0 with DUP and RETAIN
+clear, PUBACK, SUBACK, UNSUBACK, PINGRESP) are conforming under these conditions, and only these: -/
+
+theorem emitted_connack (rc : UInt8) : Spec.Mqtt.conforming (.connack rc) = decide (rc.toNat ≤ 5) := by
+  simp [Spec.Mqtt.conforming, Spec.Mqtt.ofModel, Spec.Mqtt.valid, Spec.Mqtt.body]
+
+theorem emitted_publish (topic : Bytes) (mid : UInt16) (payload : Bytes) :
+    Spec.Mqtt.conforming (.publish ⟨false, 0, false⟩ topic mid payload) =
+      (decide (topic.length ≤ 65535) && decide (2 + topic.length + payload.length ≤ 268435455)) := by
+  simp [Spec.Mqtt.conforming, Spec.Mqtt.ofModel, Spec.Mqtt.valid, Spec.Mqtt.body, Spec.Mqtt.qosOk,
+    Spec.Mqtt.strOk, MqttSpec.encStr_length, Nat.add_assoc]
+
+theorem emitted_puback (mid : UInt16) : Spec.Mqtt.conforming (.puback mid) = true := by
+  simp [Spec.Mqtt.conforming, Spec.Mqtt.ofModel, Spec.Mqtt.valid, Spec.Mqtt.body, Spec.Mqtt.encU16]
+
+theorem emitted_unsuback (mid : UInt16) : Spec.Mqtt.conforming (.unsuback mid) = true := by
+  simp [Spec.Mqtt.conforming, Spec.Mqtt.ofModel, Spec.Mqtt.valid, Spec.Mqtt.body, Spec.Mqtt.encU16]
+
+theorem emitted_suback (mid : UInt16) (codes : List UInt8) :
+    Spec.Mqtt.conforming (.suback mid codes) =
+      (codes.all (fun c => decide (c.toNat ≤ 2) || decide (c.toNat = 128)) && decide (2 + codes.length ≤ 268435455)) := by
+  have e : (Spec.Mqtt.encU16 mid ++ codes).length = 2 + codes.length := by
+    simp [Spec.Mqtt.encU16]; omega
+  simp only [Spec.Mqtt.conforming, Spec.Mqtt.ofModel, Spec.Mqtt.valid, Spec.Mqtt.body, e]
+
+theorem emitted_pingresp : Spec.Mqtt.encode .pingresp = some [0xd0, 0x00] := by decide
+
+/-! ## decoding -/
+
+/-- **decode_conforms.** Every byte string the standard prescribes for a packet value within the size limit
+is decoded by `DecodePacket` to exactly that packet — type, flags, QoS and Will QoS as two-bit values, packet
+identifier present exactly when the standard says so, strings and payload byte for byte — consuming exactly
+the packet. (`normal p` is `p` with the fields that are absent on the wire left empty.) -/
+theorem decode_conforms (p : Packet) (bs rest : Bytes) (max n : Nat) (h : Spec.Mqtt.encode p = some bs)
+    (hn : Spec.Mqtt.remainingLengthOf p = some n) (hmax : n ≤ max) :
+    decode (bs ++ rest) max = .ok (normal p, rest) :=
+  MqttSpec.decode_conforms p bs rest max n h hn hmax
+
+/-- The same from the standard's side: every valid MQTT 3.1.1 packet within the size limit, including those
+no Go value denotes (a CONNACK with Session Present), is decoded to the right type with the right fields. -/
+theorem decode_standard_packet (sp : Spec.Mqtt.ControlPacket) (bs rest : Bytes) (max : Nat)
+    (hv : Spec.Mqtt.valid sp = true) (he : Spec.Mqtt.encodePacket sp = some bs)
+    (hmax : (Spec.Mqtt.body sp).length ≤ max) :
+    decode (bs ++ rest) max = .ok (Spec.Mqtt.toModel sp, rest) :=
+  MqttSpec.decode_standard_packet sp bs rest max hv he hmax
+
+/-! ## the specification itself -/
+
+/-- **spec_roundtrip.** The standard's parser reads back what the standard's encoder wrote … -/
+theorem spec_roundtrip (p : Packet) (bs rest : Bytes) (h : Spec.Mqtt.encode p = some bs) :
+    Spec.Mqtt.decode (bs ++ rest) = some (normal p, rest) :=
+  MqttSpec.spec_roundtrip p bs rest h
+
+/-- … on its own packet type, for every valid packet -/
+theorem spec_packet_roundtrip (sp : Spec.Mqtt.ControlPacket) (bs rest : Bytes) (hv : Spec.Mqtt.valid sp = true)
+    (he : Spec.Mqtt.encodePacket sp = some bs) : Spec.Mqtt.decodePacket (bs ++ rest) = some (sp, rest) :=
+  MqttSpec.decodePacket_encodePacket sp bs rest hv he
+
+/-! ## non-vacuity: concrete packets that satisfy the hypotheses, and the theorems applied to them -/
+
+/-- a CONNECT with Will QoS 2, Will Retain, user name and password -/
+def exConnect : Packet :=
+  .connect ⟨[77, 81, 84, 84], 4, true, true, true, 2, true, true, 60, [99], [116], [109], [117], [112]⟩
+def exConnectBytes : Bytes :=
+  [0x10, 25, 0, 4, 77, 81, 84, 84, 4, 0xf6, 0, 60, 0, 1, 99, 0, 1, 116, 0, 1, 109, 0, 1, 117, 0, 1, 112]
+/-- a PUBLISH at QoS 1 whose Remaining Length is `2 + 1 + 2 + k` -/
+def exPublish (k : Nat) : Packet := .publish ⟨false, 1, false⟩ [97] 7 (List.replicate k 0)
+/-- a SUBSCRIBE with two topic filters -/
+def exSubscribe : Packet := .subscribe Spec.Mqtt.reservedHeader 10 [⟨[97, 47, 98], 1⟩, ⟨[99, 47, 35], 2⟩]
+def exSubscribeBytes : Bytes := [0x82, 14, 0, 10, 0, 3, 97, 47, 98, 1, 0, 3, 99, 47, 35, 2]
+
+example : Spec.Mqtt.encode exConnect = some exConnectBytes := by decide
+example : Spec.Mqtt.encode exSubscribe = some exSubscribeBytes := by decide
+
+theorem exPublish_encode (k : Nat) :
+    Spec.Mqtt.encode (exPublish k) =
+      (Spec.Mqtt.encRemainingLength (5 + k)).map (fun l => 0x32 :: l ++ [0, 1, 97, 0, 7] ++ List.replicate k 0) := by
+  have hl : (Spec.Mqtt.body (.publish false 1 false [97] (some 7) (List.replicate k 0))).length = 5 + k := by
+    simp [Spec.Mqtt.body, Spec.Mqtt.encStr, Spec.Mqtt.encU16]; omega
+  have hv : Spec.Mqtt.valid (.publish false 1 false [97] (some 7) (List.replicate k 0)) = true := by
+    simp [Spec.Mqtt.valid, Spec.Mqtt.qosOk, Spec.Mqtt.strOk]
+  have hm : Spec.Mqtt.ofModel (exPublish k) = some (.publish false 1 false [97] (some 7) (List.replicate k 0)) := by
+    simp [exPublish, Spec.Mqtt.ofModel]
+  simp only [Spec.Mqtt.encode, hm, hv, if_true, Spec.Mqtt.encodePacket, hl]
+  cases Spec.Mqtt.encRemainingLength (5 + k) with
+  | none => rfl
+  | some l =>
+    have : Spec.Mqtt.body (.publish false 1 false [97] (some 7) (List.replicate k 0)) = [0, 1, 97, 0, 7] ++ List.replicate k 0 := by
+      simp [Spec.Mqtt.body, Spec.Mqtt.encStr, Spec.Mqtt.encU16]
+    simp [this, Spec.Mqtt.typeOf, Spec.Mqtt.flagBits, Spec.Mqtt.bit]
+
+-- Remaining Length 128: two length bytes
+example : Spec.Mqtt.encode (exPublish 123) = some ([0x32, 0x80, 0x01, 0, 1, 97, 0, 7] ++ List.replicate 123 0) := by
+  rw [exPublish_encode]; rfl
+-- Remaining Length 16384: three length bytes
+example : Spec.Mqtt.encode (exPublish 16379) = some ([0x32, 0x80, 0x80, 0x01, 0, 1, 97, 0, 7] ++ List.replicate 16379 0) := by
+  rw [exPublish_encode]; rfl
+
+theorem exPublish_len (k : Nat) : Spec.Mqtt.remainingLengthOf (exPublish k) = some (5 + k) := by
+  simp [Spec.Mqtt.remainingLengthOf, exPublish, Spec.Mqtt.ofModel, Spec.Mqtt.body, Spec.Mqtt.encStr, Spec.Mqtt.encU16]
+  omega
+
+-- the theorems applied: what the standard prescribes is what `EncodeTo` writes …
+example : encode exConnect = .ok exConnectBytes :=
+  emit_conforms exConnect _ 25 (by decide) (by decide) (by decide)
+example : encode (exPublish 123) = .ok ([0x32, 0x80, 0x01, 0, 1, 97, 0, 7] ++ List.replicate 123 0) :=
+  emit_conforms _ _ 128 (by rw [exPublish_encode]; rfl) (exPublish_len 123) (by decide)
+example : encode (exPublish 16379) = .ok ([0x32, 0x80, 0x80, 0x01, 0, 1, 97, 0, 7] ++ List.replicate 16379 0) :=
+  emit_conforms _ _ 16384 (by rw [exPublish_encode]; rfl) (exPublish_len 16379) (by decide)
+example : encode exSubscribe = .ok exSubscribeBytes :=
+  emit_conforms exSubscribe _ 14 (by decide) (by decide) (by decide)
+-- … and `DecodePacket` and the standard's parser read it back, field by field
+example : decode (exConnectBytes ++ [9]) 65536 = .ok (exConnect, [9]) :=
+  decode_conforms exConnect _ [9] 65536 25 (by decide) (by decide) (by decide)
+example : decode ([0x32, 0x80, 0x01, 0, 1, 97, 0, 7] ++ List.replicate 123 0 ++ [9]) 65536 = .ok (exPublish 123, [9]) :=
+  decode_conforms (exPublish 123) _ [9] 65536 128 (by rw [exPublish_encode]; rfl) (exPublish_len 123) (by decide)
+example : decode ([0x32, 0x80, 0x80, 0x01, 0, 1, 97, 0, 7] ++ List.replicate 16379 0 ++ [9]) 65536
+    = .ok (exPublish 16379, [9]) :=
+  decode_conforms (exPublish 16379) _ [9] 65536 16384 (by rw [exPublish_encode]; rfl) (exPublish_len 16379) (by decide)
+example : decode (exSubscribeBytes ++ [9]) 65536 = .ok (exSubscribe, [9]) :=
+  decode_conforms exSubscribe _ [9] 65536 14 (by decide) (by decide) (by decide)
+example : Spec.Mqtt.decode (exConnectBytes ++ [9]) = some (exConnect, [9]) :=
+  spec_roundtrip exConnect _ [9] (by decide)
+example : Spec.Mqtt.decode ([0x32, 0x80, 0x80, 0x01, 0, 1, 97, 0, 7] ++ List.replicate 16379 0 ++ [9])
+    = some (exPublish 16379, [9]) :=
+  spec_roundtrip (exPublish 16379) _ [9] (by rw [exPublish_encode]; rfl)
+example : Spec.Mqtt.decode (exSubscribeBytes ++ [9]) = some (exSubscribe, [9]) :=
+  spec_roundtrip exSubscribe _ [9] (by decide)
+-- a standard packet no Go value denotes: CONNACK with Session Present (see `connack_session_present_deviation`)
+example : decode [0x20, 2, 1, 0] 65536 = .ok (.connack 0, []) :=
+  decode_standard_packet (.connack true 0) [0x20, 2, 1, 0] [] 65536 (by decide) (by decide) (by decide)
+-- the packets the broker emits
+example : Spec.Mqtt.encode (.connack 5) = some [0x20, 2, 0, 5] := by decide
+example : Spec.Mqtt.encode (.publish ⟨false, 0, false⟩ [97, 47] 0 [104, 105]) = some [0x30, 6, 0, 2, 97, 47, 104, 105] := by
+  decide
+example : Spec.Mqtt.encode (.puback 258) = some [0x40, 2, 1, 2] := by decide
+example : Spec.Mqtt.encode (.suback 258 [0, 1, 2, 0x80]) = some [0x90, 6, 1, 2, 0, 1, 2, 0x80] := by decide
+example : Spec.Mqtt.encode (.unsuback 258) = some [0xb0, 2, 1, 2] := by decide
+
+
+/-! ## Deviations of the Go codec from the standard
+
+Each is exhibited on literal bytes: the standard's parser (`Spec.Mqtt.decode`) rejects the byte string, or the
+standard prescribes no byte string for the value (`Spec.Mqtt.encode … = none`), and the model of the Go code —
+checked against the real code on every run — accepts / writes it. None of them contradicts the theorems above:
+they are all outside `Spec.Mqtt.conforming`. `DecodePacket` is a permissive decoder; it never validates. -/
+
+/-- 2.2.2 [MQTT-2.2.2-2]: reserved fixed-header flag bits are not checked. PUBACK with flags 1111 and a
+SUBSCRIBE with flags 0000 (instead of 0010) are accepted. -/
+theorem reserved_flags_deviation :
+    Spec.Mqtt.decode [0x4f, 2, 0, 1] = none ∧ decode [0x4f, 2, 0, 1] 65536 = .ok (.puback 1, []) ∧
+    Spec.Mqtt.decode [0x80, 6, 0, 1, 0, 1, 0x61, 0] = none ∧
+    decode [0x80, 6, 0, 1, 0, 1, 0x61, 0] 65536 = .ok (.subscribe ⟨false, 0, false⟩ 1 [⟨[0x61], 0⟩], []) := by
+  decide
+
+/-- … and on the way out `EncodeTo` writes whatever the `Header` field holds: a `Pubrel` / `Subscribe` /
+`Unsubscribe` value with the zero `Header` goes out with flags 0000, which a conforming receiver must treat
+as malformed [MQTT-3.6.1-1, -3.8.1-1, -3.10.1-1]. (The broker emits none of the three; the `load` command of
+the repository sends such a SUBSCRIBE, with packet identifier 0.) -/
+theorem reserved_flags_encode_deviation :
+    Spec.Mqtt.encode (.pubrel ⟨false, 0, false⟩ 1) = none ∧ encode (.pubrel ⟨false, 0, false⟩ 1) = .ok [0x60, 2, 0, 1] ∧
+    Spec.Mqtt.decode [0x60, 2, 0, 1] = none ∧
+    Spec.Mqtt.encode (.pubrel ⟨false, 1, false⟩ 1) = some [0x62, 2, 0, 1] := by
+  decide
+
+/-- 3.2.2.1–3.2.2.2: `decodeConnack` skips the Connect Acknowledge Flags byte. Session Present is lost (two
+different standard packets decode to the same value; the Go struct has no such field and `EncodeTo` always
+writes 0), and non-zero reserved bits 7–1 are accepted. The broker never receives a CONNACK. -/
+theorem connack_session_present_deviation :
+    Spec.Mqtt.decodePacket [0x20, 2, 1, 0] = some (.connack true 0, []) ∧
+    Spec.Mqtt.decodePacket [0x20, 2, 0, 0] = some (.connack false 0, []) ∧
+    decode [0x20, 2, 1, 0] 65536 = .ok (.connack 0, []) ∧ decode [0x20, 2, 0, 0] 65536 = .ok (.connack 0, []) ∧
+    Spec.Mqtt.decode [0x20, 2, 0xfe, 0] = none ∧ decode [0x20, 2, 0xfe, 0] 65536 = .ok (.connack 0, []) := by
+  decide
+
+/-- [MQTT-3.3.1-4] / [MQTT-3.1.2-14]: QoS 3 is accepted, in a PUBLISH and as Will QoS (CONNECT flags 0x1c). -/
+theorem qos3_deviation :
+    Spec.Mqtt.decode [0x36, 5, 0, 1, 0x61, 0, 1] = none ∧
+    decode [0x36, 5, 0, 1, 0x61, 0, 1] 65536 = .ok (.publish ⟨false, 3, false⟩ [0x61] 1 [], []) ∧
+    Spec.Mqtt.decode [0x10, 19, 0, 4, 77, 81, 84, 84, 4, 0x1c, 0, 60, 0, 1, 99, 0, 1, 116, 0, 1, 109] = none ∧
+    decode [0x10, 19, 0, 4, 77, 81, 84, 84, 4, 0x1c, 0, 60, 0, 1, 99, 0, 1, 116, 0, 1, 109] 65536 =
+      .ok (.connect ⟨[77, 81, 84, 84], 4, false, false, false, 3, true, false, 60, [99], [116], [109], [], []⟩, []) := by
+  decide
+
+/-- [MQTT-2.3.1-1]: packet identifier 0 is accepted in SUBSCRIBE and in a PUBLISH at QoS 1;
+[MQTT-3.3.1-2]: DUP with QoS 0 is accepted. -/
+theorem packet_id_zero_deviation :
+    Spec.Mqtt.decode [0x82, 6, 0, 0, 0, 1, 0x61, 0] = none ∧
+    decode [0x82, 6, 0, 0, 0, 1, 0x61, 0] 65536 = .ok (.subscribe ⟨false, 1, false⟩ 0 [⟨[0x61], 0⟩], []) ∧
+    Spec.Mqtt.decode [0x32, 5, 0, 1, 0x61, 0, 0] = none ∧
+    decode [0x32, 5, 0, 1, 0x61, 0, 0] 65536 = .ok (.publish ⟨false, 1, false⟩ [0x61] 0 [], []) ∧
+    Spec.Mqtt.decode [0x38, 3, 0, 1, 0x61] = none ∧
+    decode [0x38, 3, 0, 1, 0x61] 65536 = .ok (.publish ⟨true, 0, false⟩ [0x61] 0 [], []) := by
+  decide
+
+/-- [MQTT-3.8.3-3] / [MQTT-3.10.3-2]: a SUBSCRIBE / UNSUBSCRIBE without any topic filter is accepted (the
+broker then answers a SUBSCRIBE with a SUBACK that has no return code). -/
+theorem empty_subscribe_deviation :
+    Spec.Mqtt.decode [0x82, 2, 0, 1] = none ∧ decode [0x82, 2, 0, 1] 65536 = .ok (.subscribe ⟨false, 1, false⟩ 1 [], []) ∧
+    Spec.Mqtt.decode [0xa2, 2, 0, 1] = none ∧
+    decode [0xa2, 2, 0, 1] 65536 = .ok (.unsubscribe ⟨false, 1, false⟩ 1 [], []) := by
+  decide
+
+/-- [MQTT-3-8.3-4]: the Requested QoS byte is not checked (reserved bits, QoS 3). `conn.go` copies the byte
+into the SUBACK, so the broker can be made to EMIT a SUBACK with a reserved return code [MQTT-3.9.3-2]:
+SUBSCRIBE `82 06 00 01 00 01 61 ff` is answered with `90 03 00 01 ff`, for which the standard prescribes no
+encoding (the only emitted packet outside `conforming`, and only in reply to a malformed request; observed on
+the real broker, notes/experiments/internal__broker__zz_s16_suback_test.go.txt). -/
+theorem requested_qos_deviation :
+    Spec.Mqtt.decode [0x82, 6, 0, 1, 0, 1, 0x61, 0xff] = none ∧
+    decode [0x82, 6, 0, 1, 0, 1, 0x61, 0xff] 65536 = .ok (.subscribe ⟨false, 1, false⟩ 1 [⟨[0x61], 0xff⟩], []) ∧
+    Spec.Mqtt.encode (.suback 1 [0xff]) = none ∧ encode (.suback 1 [0xff]) = .ok [0x90, 3, 0, 1, 0xff] ∧
+    Spec.Mqtt.decode [0x90, 3, 0, 1, 0xff] = none := by
+  decide
+
+/-- 2.2.3: a Remaining Length of five bytes is accepted (`decodeHeader` loops while the continuation bit is
+set, in uint32 arithmetic). -/
+theorem remaining_length_five_bytes_deviation :
+    Spec.Mqtt.decode [0x40, 0x82, 0x80, 0x80, 0x80, 0x00, 0, 1] = none ∧
+    decode [0x40, 0x82, 0x80, 0x80, 0x80, 0x00, 0, 1] 65536 = .ok (.puback 1, []) := by
+  decide
+
+/-- 3.4.1, 3.12.1: a Remaining Length other than the one the packet type fixes is accepted. Surplus body
+bytes of a PUBACK (… PUBREC, PUBREL, PUBCOMP, UNSUBACK, CONNACK, CONNECT) are skipped; for PINGREQ, PINGRESP
+and DISCONNECT the announced body is not even consumed and is read as the next packet. -/
+theorem surplus_body_deviation :
+    Spec.Mqtt.decode [0x40, 3, 0, 1, 0xff] = none ∧ decode [0x40, 3, 0, 1, 0xff] 65536 = .ok (.puback 1, []) ∧
+    Spec.Mqtt.decode [0xc0, 2, 0xaa, 0xbb] = none ∧ decode [0xc0, 2, 0xaa, 0xbb] 65536 = .ok (.pingreq, [0xaa, 0xbb]) ∧
+    Spec.Mqtt.decode [0x10, 15, 0, 4, 77, 81, 84, 84, 4, 2, 0, 60, 0, 1, 99, 0xde, 0xad] = none ∧
+    decode [0x10, 15, 0, 4, 77, 81, 84, 84, 4, 2, 0, 60, 0, 1, 99, 0xde, 0xad] 65536 =
+      .ok (.connect ⟨[77, 81, 84, 84], 4, false, false, false, 0, false, true, 60, [99], [], [], [], []⟩, []) := by
+  decide
+
+/-- 3.1.2.3: the Connect Flags are not validated: reserved bit 0 set [MQTT-3.1.2-3] (flags 0x01), Will QoS or
+Will Retain without Will Flag [MQTT-3.1.2-13, -15] (0x08, 0x20), Password without User Name [MQTT-3.1.2-22]
+(0x40) are all accepted; and `EncodeTo` writes Will QoS / Will Retain of a `Connect` value without Will. -/
+theorem connect_flags_deviation :
+    Spec.Mqtt.decode [0x10, 13, 0, 4, 77, 81, 84, 84, 4, 0x01, 0, 60, 0, 1, 99] = none ∧
+    decode [0x10, 13, 0, 4, 77, 81, 84, 84, 4, 0x01, 0, 60, 0, 1, 99] 65536 =
+      .ok (.connect ⟨[77, 81, 84, 84], 4, false, false, false, 0, false, false, 60, [99], [], [], [], []⟩, []) ∧
+    Spec.Mqtt.decode [0x10, 13, 0, 4, 77, 81, 84, 84, 4, 0x08, 0, 60, 0, 1, 99] = none ∧
+    decode [0x10, 13, 0, 4, 77, 81, 84, 84, 4, 0x08, 0, 60, 0, 1, 99] 65536 =
+      .ok (.connect ⟨[77, 81, 84, 84], 4, false, false, false, 1, false, false, 60, [99], [], [], [], []⟩, []) ∧
+    Spec.Mqtt.decode [0x10, 13, 0, 4, 77, 81, 84, 84, 4, 0x20, 0, 60, 0, 1, 99] = none ∧
+    decode [0x10, 13, 0, 4, 77, 81, 84, 84, 4, 0x20, 0, 60, 0, 1, 99] 65536 =
+      .ok (.connect ⟨[77, 81, 84, 84], 4, false, false, true, 0, false, false, 60, [99], [], [], [], []⟩, []) ∧
+    Spec.Mqtt.decode [0x10, 16, 0, 4, 77, 81, 84, 84, 4, 0x40, 0, 60, 0, 1, 99, 0, 1, 112] = none ∧
+    decode [0x10, 16, 0, 4, 77, 81, 84, 84, 4, 0x40, 0, 60, 0, 1, 99, 0, 1, 112] 65536 =
+      .ok (.connect ⟨[77, 81, 84, 84], 4, false, true, false, 0, false, false, 60, [99], [], [], [], [112]⟩, []) ∧
+    Spec.Mqtt.encode (.connect ⟨[77, 81, 84, 84], 4, false, false, false, 1, false, true, 60, [99], [], [], [], []⟩) = none ∧
+    encode (.connect ⟨[77, 81, 84, 84], 4, false, false, false, 1, false, true, 60, [99], [], [], [], []⟩) =
+      .ok [0x10, 13, 0, 4, 77, 81, 84, 84, 4, 0x0a, 0, 60, 0, 1, 99] := by
+  decide
+
+/-- 1.5.3 [MQTT-1.5.3-1, -2], 4.7.3 [MQTT-4.7.3-1], 3.3.2.1 [MQTT-3.3.2-2]: strings are byte strings to the
+codec. A PUBLISH whose Topic Name is U+0000, an overlong UTF-8 form, a wildcard, or empty is decoded (whether
+the broker then refuses the channel is not the codec's matter). The standard's character-level rules
+(`Spec.Mqtt.textOk`) reject all four. -/
+theorem string_content_deviation :
+    decode [0x30, 3, 0, 1, 0x00] 65536 = .ok (.publish ⟨false, 0, false⟩ [0x00] 0 [], []) ∧
+    Spec.Mqtt.textOk (.publish false 0 false [0x00] none []) = false ∧
+    decode [0x30, 4, 0, 2, 0xc0, 0x80] 65536 = .ok (.publish ⟨false, 0, false⟩ [0xc0, 0x80] 0 [], []) ∧
+    Spec.Mqtt.textOk (.publish false 0 false [0xc0, 0x80] none []) = false ∧
+    decode [0x30, 3, 0, 1, 0x23] 65536 = .ok (.publish ⟨false, 0, false⟩ [0x23] 0 [], []) ∧
+    Spec.Mqtt.textOk (.publish false 0 false [0x23] none []) = false ∧
+    decode [0x30, 2, 0, 0] 65536 = .ok (.publish ⟨false, 0, false⟩ [] 0 [], []) ∧
+    Spec.Mqtt.textOk (.publish false 0 false [] none []) = false ∧
+    Spec.Mqtt.textOk (.publish false 0 false [0x61, 0x2f, 0xe2, 0x82, 0xac] none []) = true := by
+  decide
+
+/-- What is NOT a deviation of the codec: a CONNECT with a zero-length Client Identifier and Clean Session 0
+[MQTT-3.1.3-7, -8], another protocol name or level [MQTT-3.1.2-1, -2] are well-formed packets that the
+standard wants answered with CONNACK 0x02 / 0x01. Both parsers accept them; `conn.go` `onConnect` then
+answers 0x00 regardless (protocol behaviour, outside C16). -/
+example : Spec.Mqtt.decode [0x10, 12, 0, 4, 77, 81, 84, 84, 4, 0, 0, 60, 0, 0] =
+      some (.connect ⟨[77, 81, 84, 84], 4, false, false, false, 0, false, false, 60, [], [], [], [], []⟩, []) ∧
+    decode [0x10, 12, 0, 4, 77, 81, 84, 84, 4, 0, 0, 60, 0, 0] 65536 =
+      .ok (.connect ⟨[77, 81, 84, 84], 4, false, false, false, 0, false, false, 60, [], [], [], [], []⟩, []) := by
+  decide
+
+/-- MessageID is NOT written for QoS 0 (and is written for QoS 1, 2): no deviation. -/
+example : encode (.publish ⟨false, 0, false⟩ [0x61] 7 [1]) = .ok [0x30, 4, 0, 1, 0x61, 1] ∧
+    encode (.publish ⟨false, 1, false⟩ [0x61] 7 [1]) = .ok [0x32, 6, 0, 1, 0x61, 0, 7, 1] := by decide
 
 end Emitter.C16
